@@ -1037,3 +1037,79 @@ func (w *World) PrintPaths(fn *ssa.Function) {
 		fmt.Println("\t\t\t{" + strings.Join(q, ", ") + "},")
 	}
 }
+
+// ---------------------------------------------------------------------------
+// ITER — every completed loop iteration passes the gates
+
+// ITER: in Fn, for the loop whose body is entered on the CFG edge carrying literal Loop, every path from the body entry
+// back to the loop header (a completed iteration that goes on to the next element) passes each gate. Gates are cut sets
+// as elsewhere, so G(instr:X, -c) reads "X was executed or c was false".
+type ITER struct {
+	ID    string
+	Fn    string
+	Loop  string // literal pattern of the loop-continues edge, e.g. `+^next\(range\(\$0\)\)#0$`
+	Gates []Gate
+	Min   int
+	Note  string
+}
+
+func (r ITER) RuleID() string { return r.ID }
+
+func (r ITER) Check(w *World) []Result {
+	fn := w.Fn(r.Fn)
+	if fn == nil {
+		return anchorMissing(r.ID, "ITER", r.Fn)
+	}
+	construct := "ITER:" + r.Fn + "▸" + r.Loop
+	pat := MustLitPat(r.Loop)
+	type loop struct{ header, body *ssa.BasicBlock }
+	var loops []loop
+	for _, f := range WithClosures(fn) {
+		for _, b := range f.Blocks {
+			t, fl, ok := w.BlockLits(b)
+			if !ok || len(b.Succs) != 2 {
+				continue
+			}
+			if pat.Match(t) {
+				loops = append(loops, loop{b, b.Succs[0]})
+			}
+			if pat.Match(fl) {
+				loops = append(loops, loop{b, b.Succs[1]})
+			}
+		}
+	}
+	min := r.Min
+	if min == 0 {
+		min = 1
+	}
+	if len(loops) < min {
+		return []Result{one(r.ID, "ITER", construct, Violated, len(loops), w.Pos(fn.Pos()), fmt.Sprintf("loop edge not found (%d, expected ≥%d): %s", len(loops), min, r.Loop))}
+	}
+	var out []Result
+	for _, l := range loops {
+		for _, g := range r.Gates {
+			cut := w.GateCut(l.header.Parent(), g)
+			reach := Reach([]*ssa.BasicBlock{l.body}, cut)
+			// the header is re-entered if some reached block (not stopped by a cut instruction) has an uncut edge to it
+			back := false
+			for b := range reach {
+				if blockHasCutInstr(b, cut, nil) {
+					continue
+				}
+				for i, s := range b.Succs {
+					if s == l.header && !cut.Edges[EdgeKey{b, i}] && !(b == l.header) {
+						back = true
+					}
+				}
+			}
+			if back {
+				out = append(out, one(r.ID, "ITER", construct+"⇐"+g.Text, Violated, 1, w.InstrPos(l.body.Instrs[0]),
+					fmt.Sprintf("an iteration of the loop in %s can complete without passing {%s}", r.Fn, g.Text)))
+			}
+		}
+	}
+	if len(out) == 0 {
+		out = append(out, one(r.ID, "ITER", construct, Discharged, len(loops), w.Pos(fn.Pos()), fmt.Sprintf("%d loop(s) × %d gate(s): every completed iteration passes", len(loops), len(r.Gates))))
+	}
+	return out
+}
